@@ -53,11 +53,56 @@ func genC08(c *Ctx) {
 		states := make([]fidState, N+1)
 		fresh := uint32(3000)
 		var frames [][]byte
+		var blockedIdx []int
+		for j := range blocked {
+			blockedIdx = append(blockedIdx, j)
+		}
+		sort.Ints(blockedIdx)
+		sameFid := r.Intn(2) == 0
 		for j := 0; j < N; j++ {
-			fr, _ := genReq(r, s, uint16(10+j), uint32(j+1), &states[j+1], &fresh)
+			fidj := j
+			// a request that is not parked may name the fid of one that is (another tag, same fid)
+			if sameFid && !blocked[j] && r.Intn(2) == 0 {
+				fidj = blockedIdx[r.Intn(len(blockedIdx))]
+			}
+			fr, _ := genReq(r, s, uint16(10+j), uint32(fidj+1), &states[fidj+1], &fresh)
 			frames = append(frames, fr)
 		}
-		if r.Intn(2) == 0 {
+		// the parked ones first when fids are shared, so that they are inside before the others arrive
+		if sameFid {
+			var first, rest [][]byte
+			var firstIdx []int
+			for j := 0; j < N; j++ {
+				if blocked[j] {
+					first = append(first, frames[j])
+					firstIdx = append(firstIdx, j)
+				} else {
+					rest = append(rest, frames[j])
+				}
+			}
+			// arrival order changes: re-key the plans to it
+			s.mu.Lock()
+			for j := 0; j < N; j++ {
+				delete(s.plans, base+j)
+			}
+			for k := range first {
+				s.plans[base+k] = plan{gate: true}
+			}
+			s.mu.Unlock()
+			nb2 := len(first)
+			s.write(first...)
+			var ids []int
+			for k := 0; k < nb2; k++ {
+				ids = append(ids, base+k)
+			}
+			s.waitEntered(ids, f0, 5*time.Second)
+			s.write(rest...)
+			blocked = map[int]bool{}
+			for k := 0; k < nb2; k++ {
+				blocked[k] = true
+			}
+			c.count("same-fid")
+		} else if r.Intn(2) == 0 {
 			s.write(frames...)
 		} else {
 			for _, f := range frames {
@@ -174,7 +219,7 @@ func genC08(c *Ctx) {
 		s.waitReqs(base+len(order), 5*time.Second)
 		// release: the group strictly one after the other (only the oldest can be inside), the others at random moments
 		pendingOthers := append([]int(nil), otherRids...)
-		for _, rid := range groupRids {
+		for gi, rid := range groupRids {
 			if gated {
 				if !s.waitEntered([]int{rid}, f0, 5*time.Second) {
 					c.oracleFail("C08/fifo/member-never-started", fmt.Sprintf("member %d of the tag group was never handed to the implementation", rid-base), line)
@@ -196,6 +241,23 @@ func genC08(c *Ctx) {
 				pendingOthers = pendingOthers[1:]
 			}
 			s.release(rid)
+			// one at a time: with the successor parked inside the implementation, the work for
+			// this member (its handler, or its late answer) is over — it does not wait for the successor
+			if gated && gi+1 < len(groupRids) {
+				nx := groupRids[gi+1]
+				if s.waitEntered([]int{nx}, f0, 5*time.Second) {
+					dl := time.Now().Add(2 * time.Second)
+					s.mu.Lock()
+					q := s.reqs[rid]
+					s.mu.Unlock()
+					for atomic.LoadInt64(&q.exited) == 0 && time.Now().Before(dl) {
+						time.Sleep(200 * time.Microsecond)
+					}
+					if atomic.LoadInt64(&q.exited) == 0 {
+						c.oracleFail("C08/fifo/predecessor-held-by-successor", fmt.Sprintf("member %d of the tag group has been answered but its handler does not return while member %d is parked in the implementation", rid-base, nx-base), line)
+					}
+				}
+			}
 		}
 		for _, o := range pendingOthers {
 			s.release(o)
@@ -265,7 +327,8 @@ func genC11(c *Ctx) {
 		inflight := r.Intn(5)
 		maxpend := []int{0, 1, 8}[r.Intn(3)]
 		midframe := r.Intn(4) == 0
-		line := fmt.Sprintf("lifejudge C11 seed=%d fids=%d inflight=%d maxpend=%d midframe=%v", i, nf, inflight, maxpend, midframe)
+		stalled := r.Intn(3) == 0
+		line := fmt.Sprintf("lifejudge C11 seed=%d fids=%d inflight=%d maxpend=%d midframe=%v stalled=%v", i, nf, inflight, maxpend, midframe, stalled)
 		c.begin(line)
 		// nothing of an earlier scenario may still be running
 		if m, ok := waitCensus(map[string]int{}, 5*time.Second); !ok {
@@ -336,6 +399,35 @@ func genC11(c *Ctx) {
 		if inf == "" {
 			inf = "none"
 		}
+		// a client that has stopped reading: replies pile up behind the writer
+		if stalled {
+			atomic.StoreInt32(&s.paused, 1)
+			time.Sleep(time.Millisecond)
+			m := 2 + r.Intn(11)
+			var fr [][]byte
+			for j := 0; j < m; j++ {
+				fr = append(fr, s.send(uint16(100+j), func(fc *g.Fcall) error { return g.PackTstat(fc, 0) }))
+			}
+			s.write(fr...)
+			// wait until the implementation has answered them all (their replies are stuck in Respond or in the queue)
+			dl := time.Now().Add(2 * time.Second)
+			for time.Now().Before(dl) {
+				done := 0
+				s.mu.Lock()
+				for _, q := range s.reqs {
+					if q.tag >= 100 && q.tag < 200 && atomic.LoadInt64(&q.entered) != 0 {
+						done++
+					}
+				}
+				s.mu.Unlock()
+				if done == m {
+					break
+				}
+				time.Sleep(200 * time.Microsecond)
+			}
+			time.Sleep(time.Duration(r.Intn(3)) * time.Millisecond)
+			c.count("stalled-reader")
+		}
 		// the disconnect
 		if midframe {
 			fr := s.send(60, func(fc *g.Fcall) error { return g.PackTstat(fc, 0) })
@@ -360,6 +452,9 @@ func genC11(c *Ctx) {
 		// every goroutine of the victim ends; the bystander keeps its two
 		want := map[string]int{"go9p.(*Conn).recv": 1, "go9p.(*Conn).send": 1}
 		if m, ok := waitCensus(want, 5*time.Second); !ok {
+			if stalled {
+				inf += "+stalled-reader"
+			}
 			c.oracleFail("C11/goroutines/in-flight="+inf, "goroutines left after the disconnect and the return of the executing requests: "+showCensus(m)+" (want only the bystander's recv and send)", line)
 		}
 		time.Sleep(2 * time.Millisecond)
